@@ -63,11 +63,16 @@ def setups(draw, max_cells=60, max_mags=6, max_events=300, lo=-12, hi=3, holes=T
     nm = draw(st.integers(1, max_mags))
     mc = {"start": draw(st.sampled_from(["4.95", "5.95", "2.5", "3", "4.0"])), "step": draw(st.sampled_from(["0.1", "0.2", "0.5", "1"])), "n": nm}
     rates = draw(rate_arrays(nc * nm, lo=lo, hi=hi, distinct=distinct))
+    rate_dtype = None
+    if not distinct and hi >= 1 and draw(st.integers(0, 9)) == 0:
+        # whole expected counts held in an integer array (a legitimate ndarray; arithmetic on it must not stay integer)
+        rates = [float(draw(st.integers(1, 9))) if r > 0 else 0.0 for r in rates]
+        rate_dtype = "int"
     nobs = draw(st.one_of(st.integers(0, 4), st.integers(0, max_events)))
     pool = draw(st.lists(st.tuples(st.integers(0, nc - 1), st.integers(0, nm - 1)), min_size=1, max_size=max(1, min(12, nc * nm))))
     obs = [list(draw(st.sampled_from(pool))) for _ in range(nobs)]
     return {"region": rc, "mags": mc, "rates": rates, "obs": obs, "layout": draw(st.sampled_from(["C", "C", "F", "view"])),
-            "prehistory": draw(st.sampled_from([0, 0, 1, 2, 3]))}
+            "prehistory": draw(st.sampled_from([0, 0, 1, 2, 3])), **({"rate_dtype": rate_dtype} if rate_dtype else {})}
 
 
 # ------------------------------------------------------------------ builders
@@ -90,6 +95,8 @@ class Setup:
         from csep.core.forecasts import GriddedForecast
         region = region if region is not None else self.region()
         data = numpy.array(self.rates if rates is None else rates, dtype=float)
+        if self.case.get("rate_dtype") == "int" and numpy.all(data == numpy.floor(data)):
+            data = data.astype(numpy.int64)
         # same values, different memory layout: Fortran order, or a strided view into a larger array
         layout = self.case.get("layout", "C")
         if layout == "F":
@@ -138,15 +145,27 @@ class Setup:
     def catalog(self, region, obs=None, name="obs"):
         from csep.core.catalogs import CSEPCatalog
         obs = self.obs if obs is None else obs
-        cat = CSEPCatalog(data=[self.event(i, k, m) for i, (k, m) in enumerate(obs)], region=region, name=name)
-        if self.case.get("prehistory", 0) & 2:
+        pre = self.case.get("prehistory", 0)
+        first_region = region
+        if pre & 2 and region is not None and len(self.L.cells) >= 2:
+            # the catalog object starts its life on ANOTHER region object (same cells in reverse order), is read there, and is then
+            # re-bound to the region of the evaluation: whatever it remembered about cells belongs to the old region
+            try:
+                Lp = lattice.Lattice(dict(self.case["region"], cells=list(reversed(self.case["region"]["cells"]))))
+                first_region = Lp.build("from_origins", magnitudes=numpy.array(self.edges))
+            except Exception:  # noqa: BLE001
+                first_region = region
+        cat = CSEPCatalog(data=[self.event(i, k, m) for i, (k, m) in enumerate(obs)], region=first_region, name=name)
+        if pre & 2:
             # observers read once before the catalog is used (nothing may be remembered in a way that changes later answers)
             for g in (lambda: cat.event_count, lambda: cat.get_magnitudes(), lambda: cat.spatial_counts(), lambda: cat.magnitude_counts(),
-                      lambda: cat.spatial_magnitude_counts(), lambda: cat.get_mag_idx(), lambda: cat.get_spatial_idx()):
+                      lambda: cat.spatial_magnitude_counts(), lambda: cat.get_mag_idx(), lambda: cat.get_spatial_idx(), lambda: cat.spatial_event_probability()):
                 try:
                     g()
                 except Exception:  # noqa: BLE001
                     pass
+            if first_region is not region:
+                cat.region = region
         return cat
 
     def counts(self, obs=None):
